@@ -28,7 +28,8 @@ def t_shape(t, env):
         return (t[3], False)
     if op == "array":
         iw = X.ref_shape(t[2], env)[0]
-        return unify([t_shape(e, env) for e in t[1][:1 << iw]])
+        shapes = [t_shape(e, env) for e in t[1]]    # (validates unreachable elements too)
+        return unify(shapes[:1 << iw])
     if op == "as_signed":
         w = t_shape(t[1], env)[0]
         if w == 0:
@@ -143,9 +144,10 @@ def fingerprint(t, env):
     return [op, fingerprint(t[1], env)]
 
 
-def gen_offset(rng, env, max_w):
-    """Unsigned offset/index expression over env; small."""
-    cands = [i for i, (w, s) in enumerate(env) if not s and 0 <= w <= max_w]
+def gen_offset(rng, env, max_w, allowed=None):
+    """Unsigned offset/index expression over env; small. allowed: leaf indices that may be read."""
+    cands = [i for i, (w, s) in enumerate(env) if not s and 0 <= w <= max_w
+             and (allowed is None or i in allowed)]
     k = rng.random()
     if cands and k < 0.6:
         return ["sig", rng.choice(cands)]
@@ -158,13 +160,14 @@ def gen_offset(rng, env, max_w):
     return ["const", rng.choice([0, 1, 2])]
 
 
-def gen_target(rng, env, d, targets=None):
-    """Random assignable target of nesting depth <= d over the signals listed in `targets`."""
+def gen_target(rng, env, d, targets=None, offsets=None):
+    """Random assignable target of nesting depth <= d over the signals listed in `targets`;
+    offsets/indices read only the leaves listed in `offsets` (default: any)."""
     if targets is None:
         targets = list(range(len(env)))
     for _ in range(40):
         try:
-            t = _gen(rng, env, d, targets)
+            t = _gen(rng, env, d, targets, offsets)
             t_shape(t, env)
             return t
         except X.IllFormed:
@@ -172,11 +175,11 @@ def gen_target(rng, env, d, targets=None):
     return ["sig", rng.choice(targets)]
 
 
-def _gen(rng, env, d, targets):
+def _gen(rng, env, d, targets, offsets=None):
     if d <= 0 or rng.random() < 0.15:
         return ["sig", rng.choice(targets)]
     k = rng.random()
-    G = lambda: _gen(rng, env, d - 1, targets)
+    G = lambda: _gen(rng, env, d - 1, targets, offsets)
     if k < 0.25:
         t = G()
         w = t_shape(t, env)[0]
@@ -190,10 +193,10 @@ def _gen(rng, env, d, targets):
         w = t_shape(t, env)[0]
         via = rng.choice(["bit", "word"])
         pw = rng.choice([0, 1, 1, 2, 3, w, w + 1]) if via == "bit" else rng.choice([1, 1, 2, 3, max(w, 1)])
-        off = gen_offset(rng, env, 3)
+        off = gen_offset(rng, env, 3, offsets)
         return ["part", t, off, pw, 1 if via == "bit" else pw, via]
     if k < 0.85:
-        idx = gen_offset(rng, env, 2)
+        idx = gen_offset(rng, env, 2, offsets)
         if idx[0] == "const":
             idx = ["const", rng.choice([0, 1])]
         iw, isg = X.ref_shape(idx, env)
